@@ -1,4 +1,4 @@
 From Coq Require Import Extraction ExtrOcamlBasic.
-From Mamba Require Import Planar.Model.
+From Mamba Require Import Planar.Model Planar.DmpModel.
 Extraction Language OCaml.
-Extraction "model.ml" mkG adj K5 K33 planar_b k5_minor_b k33_minor_b check_model_b.
+Extraction "model.ml" mkG adj K5 K33 planar_b k5_minor_b k33_minor_b check_model_b is_planar_model.
